@@ -226,9 +226,10 @@ def check_cli(ctx):
             where = "locus %s, sample %s, --mcmc-burn %d" % (vr["id"], s, burn)
             if len(gt) != rec["ploidy"]:
                 fail(ctx, "cli_report", "GT %s has %d alleles for ploidy %d (%s)" % (fld["GT"], len(gt), rec["ploidy"], where), kind="cli")
-            # chain incongruence (printed MCI) is a functional of the RETAINED steps of each chain (default threshold 0.60)
+            # chain incongruence (printed MCI) is a functional of the RETAINED steps of each chain (--mcmc-chain-incongruence-threshold, default 0.60)
             if "MCI" in fld and fld["MCI"] not in (".", ""):
-                judge_assemble_incongruence(ctx, lambda thr_: int(fld["MCI"]), chains, burn, support_of, rec["ploidy"], 0.60, where=" [printed MCI; %s]" % where)
+                judge_assemble_incongruence(ctx, lambda thr_: int(fld["MCI"]), chains, burn, support_of, rec["ploidy"],
+                                            0.60 if cfg.get("mci_threshold") is None else cfg["mci_threshold"], where=" [printed MCI; %s]" % where)
             if "." in gt:
                 # a haplotype below --haplotype-posterior-threshold is printed as a null allele: the genotype is not fully spelled
                 ctx.counters.inc("cli_null_alleles")
